@@ -153,12 +153,22 @@ class Builder(NullCell):
         return self
 
     def store_snake_bytes(self, value: bytes):
+        if not isinstance(value, (bytes, bytearray)):
+            value = memoryview(value).tobytes()  # the lengths below are byte counts: an array or a cast memoryview counts items
         if len(value) == 0:
             return self
         i = self.available_bytes
         if len(value) <= i:
             return self.store_bytes(value)
-        return self.store_bytes(value[:i]).store_ref(Builder().store_snake_bytes(value[i:]).end_cell())
+        # the rest goes into a chain of cells of 127 bytes each, built from the last cell back (no recursion: the chain may be 1023 cells long)
+        rest = value[i:]
+        tail = None
+        for j in reversed(range(0, len(rest), 127)):
+            link = Builder().store_bytes(rest[j:j + 127])
+            if tail is not None:
+                link.store_ref(tail)
+            tail = link.end_cell()
+        return self.store_bytes(value[:i]).store_ref(tail)
 
     def store_snake_string(self, value: str, need_prefix: bool = False):
         value = value.encode()
